@@ -164,18 +164,30 @@ class Parser:
         return code_line
 
     def process_regex_input(self, data):
-        regex = data.split('"input.regex"')[1].split("=")[1]
-        index = find_first_unpair_closed_par(regex)
-        regex = regex[:index]
-        data = data.replace(regex, " lexer_state_regex ")
-        data = data.replace('"input.regex"', "parse_m_input_regex")
-        self.lexer.state = {"lexer_state_regex": regex}
+        """every "input.regex" = "<regex>" of the script: the regex is cut out and kept
+        under a placeholder of its own (the punctuation spacing must not touch it)"""
+        key = '"input.regex"'
+        parts = data.split(key)
+        data = parts[0]
+        state = {}
+        for num, tail in enumerate(parts[1:]):
+            if "=" not in tail:
+                # the words only (in a comment, a literal ...), no assignment
+                data += key + tail
+                continue
+            regex = tail.split("=")[1]
+            index = find_first_unpair_closed_par(regex)
+            regex = regex[:index]
+            placeholder = "lexer_state_regex" if not num else f"lexer_state_regex_{num}"
+            state[placeholder] = regex
+            data += "parse_m_input_regex" + tail.replace(regex, f" {placeholder} ", 1)
+        self.lexer.state = state
         return data
 
     def pre_process_data(self, data):
         data = data.decode("utf-8")
         # todo: not sure how to workaround ',' normal way
-        if "input.regex" in data:
+        if '"input.regex"' in data:
             data = self.process_regex_input(data)
         # typographic quotes are quotes and tabs are separators: normalise both before
         # the quote-aware spacing below, whose look-ahead would take the escaped
